@@ -17,6 +17,10 @@ fn lookup(cmd: &str) -> Option<CaseFn> {
     Some(match cmd {
         "c01" => cases::rt::c01,
         "c02" => cases::rt::c02,
+        "c03" => cases::query::c03,
+        "c04" => cases::query::c04,
+        "c05" => cases::rtree::c05,
+        "c06" => cases::rt::c06,
         "c07" => cases::zoom::c07,
         "c08" => cases::zoom::c08,
         _ => return None,
